@@ -389,6 +389,7 @@ pub fn run(ctx: &'static Ctx) -> i32 {
     // (d) directed families beyond the length bound (long elements, every byte value)
     let mut directed = crate::props::c04::long_elements();
     directed.extend(crate::props::c04::byte_substitutions());
+    directed.extend(crate::props::c04::hash_family());
     for lit in crate::props::c07::literal_grammar(false) {
         // every bound / half / exponent literal as a parameter (overflow checks differ by profile)
         directed.push(format!("A {lit}").into_bytes());
